@@ -38,6 +38,7 @@ type ConcRun struct {
 	dupLatest      map[string]bool     // entities whose newest version (before the concurrent phase) duplicates its predecessor
 	tokens         map[int]uint64      // per reader task: continuation token
 	readers        map[int]*FeedReader // post-hoc verification state
+	sharedMap      string              // dataset whose deletion changed the deleted-datasets map in place
 }
 
 type readLookup struct {
@@ -170,7 +171,14 @@ func (r *ConcRun) execOp(t *Task, co *concOp) {
 	case "createDataset":
 		_, co.err = h.Dsm.CreateDataset(op.DS, nil)
 	case "deleteDataset":
+		// lock-free readers (lookups, relationship queries, the garbage collector) hold the map of deleted
+		// datasets: a delete has to swap in a copy, never add to the map they hold
+		held := h.Store.VerifDeletedDatasets()
+		n := len(held)
 		co.err = h.Dsm.DeleteDataset(op.DS)
+		if co.err == nil && len(held) != n && r.sharedMap == "" {
+			r.sharedMap = op.DS
+		}
 	case "renameDataset":
 		_, co.err = h.Dsm.UpdateDataset(op.DS, &server.UpdateDatasetConfig{ID: op.DS2})
 	case "think":
@@ -323,6 +331,10 @@ func RunConcScenario(sc *Scenario) (vd *Verdict) {
 	}
 	if s.Violation != nil {
 		fail(s.Violation)
+		return
+	}
+	if r.sharedMap != "" {
+		fail(viol(sc.Property, "shared-state", "deleted-datasets-map-mutated-in-place", "DeleteDataset(%s) added to the map of deleted datasets that lock-free readers already hold: a concurrent map read and write ends the process", r.sharedMap))
 		return
 	}
 	if s.Stats["budget_exhausted"] > 0 {
